@@ -195,6 +195,21 @@ def run(c):
                 1 if st["seccomp"] == 2 else 0, cb(st["sid"] == st["pid"]), sid(st["cwd"]), sid(st["host"]), sid("<domain0>"))
             items.append("(%s, %s, false, Some %s)" % (cfg, s0, ob))
             src.append(None)
+    # ---- containers whose program runs under a generated credential: the ids inside are the configured ones, each defaulting (to 1000) on its own
+    idc = [{"id": 20000 + k, "mode": "container_ids", "host_uid": 20001 + k, "host_gid": 30001 + k, "cuid": cu, "cgid": cg}
+           for k, (cu, cg) in enumerate([(0, 0), (2000, 0), (0, 3000), (2000, 3000), (1, 1)])]
+    ido = c.run_harness(exe, idc, env=env, timeout=300)
+    for x, o in zip(idc, ido):
+        if "harness_err" in o:
+            raise RuntimeError(o["harness_err"])
+        c.count(("container-ids", x["cuid"], x["cgid"]), nontrivial=True, klass="container-ids")
+        st = o.get("state")
+        wu, wg = x["cuid"] or 1000, x["cgid"] or 1000
+        cz = lambda what, **kw: dict({"kind": "secstate", "what": what, "runner": "container", "container_uid_configured": x["cuid"], "container_gid_configured": x["cgid"]}, **kw)
+        if o["status"] != 1 or not st:
+            c.finding_or_violation(cz("the launch fails or the target does not run", error=str(o.get("error"))[:60]), {"case": x, "observed": o}, klass="container-ids")
+        elif st["uid"] != [wu] * 3 or st["gid"] != [wg] * 3:
+            c.finding_or_violation(cz("the program's ids inside the container are not the configured ones", uid=st["uid"], gid=st["gid"]), {"case": x, "observed": o}, klass="container-ids")
     c.cov["container_launch_histories"] = nhist
     c.sample({"configuration": cases[300], "probe_report": {k: v for k, v in (obs[300].get("state") or {}).items() if k != "ns"}, "stops": obs[300].get("stops")})
     dis = []
